@@ -71,7 +71,7 @@ fn site_name(s: u8) -> &'static str {
 /// session present and no limit, and poll once. Returns (result, bytes written by the request,
 /// quiescent after the request, alive after the request, identifier-bearing packets replayed later).
 fn do_site(c: &SiteCase, m: Option<u32>) -> Option<(Result<(), Res>, Vec<u8>, bool, bool, usize)> {
-    let spec = Spec::plain(64, 512);
+    let spec = Spec::plain(64, (2 * c.m as usize + 96).max(512));
     let out = with_session(&spec, |bench, s| {
         let (r, written, quiescent, alive) = {
             let Conn::Ok(mut conn, id) = connect(bench, s, &connack(false, maxprop(m))) else { return None };
@@ -173,7 +173,8 @@ fn site_cases(tier: Tier) -> Vec<SiteCase> {
     ms.extend([126, 127, 128, 129, 130, 131, 132, 133]);
     if tier == Tier::Thorough {
         ms.extend(41..=125);
-        ms.extend([255, 256, 257, 300]);
+        ms.extend(134..=400);
+        ms.extend([16382, 16383, 16384, 16385, 16386]);
     }
     for m in ms {
         for site in 0..8u8 {
@@ -191,7 +192,14 @@ fn site_cases(tier: Tier) -> Vec<SiteCase> {
                 _ => {
                     // sizes whose encoded length straddles m (encoded length = n + 6..9 (+1 above 127))
                     let lo = (m as usize).saturating_sub(12);
-                    (lo..=m as usize + 3).collect()
+                    let mut v: Vec<usize> = (lo..=m as usize + 3).collect();
+                    if tier == Tier::Thorough {
+                        // far below and far above the limit as well
+                        v.extend([0usize, 1, m as usize / 2, 2 * m as usize + 5]);
+                        v.sort();
+                        v.dedup();
+                    }
+                    v
                 }
             };
             for n in ns {
@@ -544,7 +552,7 @@ pub fn run(tier: Tier, caps: &Caps) -> Vec<FamilyReport> {
         "C14",
         sc.len() as u64,
         caps,
-        json!({"cases": sc.len(), "dimensions": "broker Maximum Packet Size 2..=40 and 126..=133 (thorough: 2..=133, 255..257, 300) x {publish QoS 0/1/2, subscribe, unsubscribe} with sizes straddling the limit, disconnect(), disconnect with reason, disconnect with reason strings 0..6 and of lengths straddling the limit; each compared with an unlimited twin; followed by a resumed unlimited connection to expose anything retained"}),
+        json!({"cases": sc.len(), "dimensions": "broker Maximum Packet Size 2..=40 and 126..=133 (thorough: 2..=400, 16382..16386) x {publish QoS 0/1/2, subscribe, unsubscribe} with sizes straddling the limit, disconnect(), disconnect with reason, disconnect with reason strings 0..6 and of lengths straddling the limit; each compared with an unlimited twin; followed by a resumed unlimited connection to expose anything retained"}),
         &|i| eval_site(&sc[i as usize]),
         &|i| serde_json::to_value(&sc[i as usize]).unwrap(),
     ));
